@@ -102,3 +102,36 @@ Proof.
   intros pb Hpb. apply in_map_iff in Hpb. destruct Hpb as [b [<- Hin]]. rewrite Forall_forall in Hb.
   destruct (Hb b Hin) as [H1 H2]. split; simpl; [assumption | intros; apply H2].
 Qed.
+
+(* ---------- the printable matrix used by the correspondence is sumby ---------- *)
+
+Lemma matrix_get_acc_add : forall m r' c' (v : Qc) r c,
+  matrix_get (acc_add r' c' v m) r c = matrix_get m r c + (if Nat.eqb r r' && Nat.eqb c c' then v else 0).
+Proof.
+  induction m as [|[[r0 c0] v0] m IH]; intros r' c' v r c; cbn [acc_add matrix_get].
+  - destruct (Nat.eqb r r' && Nat.eqb c c'); ring.
+  - destruct (Nat.eqb r' r0 && Nat.eqb c' c0) eqn:K1; cbn [matrix_get].
+    + apply andb_prop in K1. destruct K1 as [A B]. apply Nat.eqb_eq in A. apply Nat.eqb_eq in B. subst.
+      destruct (Nat.eqb r r0 && Nat.eqb c c0); ring.
+    + destruct (Nat.eqb r r0 && Nat.eqb c c0) eqn:K2.
+      * apply andb_prop in K2. destruct K2 as [A B]. apply Nat.eqb_eq in A. apply Nat.eqb_eq in B. subst.
+        rewrite (Nat.eqb_sym r0 r'), (Nat.eqb_sym c0 c'), K1. ring.
+      * apply IH.
+Qed.
+
+Lemma sumby_cons_Qc : forall (e : event QcK) evs r c,
+  @sumby QcK (e :: evs) r c = (if Nat.eqb (e_row e) r && Nat.eqb (e_col e) c then (e_val e : Qc) else 0) + @sumby QcK evs r c.
+Proof. reflexivity. Qed.
+
+Theorem matrix_of_sumby : forall (evs : list (event QcK)) r c, matrix_get (matrix_of evs) r c = @sumby QcK evs r c.
+Proof.
+  intros evs r c. unfold matrix_of.
+  assert (H : forall m, matrix_get (fold_left (fun m (e : event QcK) => acc_add (e_row e) (e_col e) (e_val e : Qc) m) evs m) r c
+                        = matrix_get m r c + @sumby QcK evs r c).
+  { induction evs as [|e evs IH]; intros m; cbn [fold_left].
+    - change (@sumby QcK [] r c) with (Q2Qc 0). ring.
+    - rewrite IH, matrix_get_acc_add, sumby_cons_Qc.
+      rewrite (Nat.eqb_sym (e_row e) r), (Nat.eqb_sym (e_col e) c).
+      destruct (Nat.eqb r (e_row e) && Nat.eqb c (e_col e)); change (T QcK) with Qc; ring. }
+  rewrite H. cbn [matrix_get]. ring.
+Qed.
